@@ -249,6 +249,11 @@ def h_from_counts_consistent(env, n, keys, n_shots, canary=False):
     ref = dict(k) if not canary else {b: x + 1 for b, x in k.items()}
     cmp_dict(env, h.counts, ref, "Histogram(k/N, n_shots=N).counts are the counts k", width=n)
     env.check_eq(h.n_shots, n_shots if not canary else n_shots + 1, "Histogram(k/N, n_shots=N).n_shots = N")
+    if not canary:
+        # the two documented constructor options TOGETHER: frequencies + n_shots with msq_first=True
+        hm = Histogram(dict(freqs), n_shots=n_shots, msq_first=True)
+        cmp_dict(env, hm.counts, {b[::-1]: x for b, x in k.items()}, "Histogram(k/N, n_shots=N, msq_first=True).counts are the counts k under reversed keys", width=n)
+        env.check_eq(hm.n_shots, n_shots, "Histogram(k/N, n_shots=N, msq_first=True).n_shots = N")
 
 
 def h_from_freqs(env, n, keys, n_shots, what, canary=False):
